@@ -3,6 +3,7 @@ module verifharness
 go 1.25.7
 
 require (
+	filippo.io/edwards25519 v1.2.0
 	github.com/anyproto/any-store v0.4.7
 	github.com/anyproto/any-sync v0.0.0
 	github.com/anyproto/go-chash v0.1.0
@@ -15,7 +16,6 @@ require (
 )
 
 require (
-	filippo.io/edwards25519 v1.2.0 // indirect
 	github.com/anyproto/go-bip39 v1.0.0 // indirect
 	github.com/anyproto/go-slip10 v1.0.1 // indirect
 	github.com/anyproto/go-slip21 v1.0.0 // indirect
